@@ -101,7 +101,7 @@ func (h accountsResourceHandler) ResolveFilter(opts common.ResourceQuery[any], o
 
 		return h.store.db.NewSelect().
 			TableExpr("(?) balance", selectBalance).
-			ColumnExpr(fmt.Sprintf("balance %s ?", common.ConvertOperatorToSQL(operator)), value).
+			ColumnExpr(fmt.Sprintf("bool_or(balance %s ?)", common.ConvertOperatorToSQL(operator)), value).
 			String(), nil, nil
 	case property == "metadata":
 		return "metadata -> ? is not null", []any{value}, nil
